@@ -587,6 +587,12 @@ pub const SYMMETRIES: [(&str, fn(Pt) -> Pt); 8] = [
 
 pub fn c08_check(case: &Case, rng: &mut Rng, f32_run: bool, counts: &mut std::collections::BTreeMap<String, u64>) -> Result<(), Fail> {
     let exact = if f32_run { case.exact_f32 } else { case.exact };
+    // every transformed call of one case goes through the same trait pairing (the transforms keep the number of parts);
+    // the pairing rotates from case to case
+    let applicable: Vec<Pairing> = PAIRINGS.iter().cloned().filter(|p| p.applicable(&case.a, &case.b)).collect();
+    let pairing = applicable[rng.below(applicable.len() as u64) as usize];
+    *counts.entry(format!("through:{}", pairing.name())).or_insert(0) += 1;
+    let run = |a: &MP, b: &MP, op: Op, f32_run: bool| -> Result<MP, Fail> { run_any(a, b, op, f32_run, pairing).map_err(fail_of) };
     let base: Vec<MP> = OPS.iter().map(|&op| run(&case.a, &case.b, op, f32_run)).collect::<Result<_, _>>()?;
     // power-of-two scaling: bit-identical, polygon order included
     // "without overflow/underflow": the library forms fourth powers of lengths (squared cross products); in f32 the
